@@ -18,7 +18,9 @@ EXPLANATION = (
     "from the statement, not a second implementation: every character is laid onto the columns it occupies (2, 1 or - combining - "
     "the columns of the character before it); f.width is the number of columns, width_at_offset(n) the number the first n "
     "characters occupy; the slice must have the width of the requested columns that exist, hold every character that lies wholly "
-    "inside with its formatting, and a space with the character's formatting for a double-width character cut by either edge."
+    "inside with its formatting, and a space with the character's formatting for a double-width character cut by either edge.  "
+    "Two-run values are also arrived at through a history - an operand whose .s / len / width / terminal string were memoised, then + "
+    "with a plain str on either side or with another looked-at value - because a value is a FmtStr however it was made."
 )
 NOT_DECIDED = ("the compiled extension's real width table (the stand-in agrees with it on the alphabet used); longer texts; where a "
                "combining character goes whose base character is cut by the edge (the statement does not say; not judged).")
@@ -65,14 +67,33 @@ def check(src, rep):
                 runs = [(text[:cut], A1), (text[cut:], A2)] if 0 < cut < len(text) else [(text, A1)] if cut == 0 else None
                 if runs is None:
                     continue
-                jobs.append((text, runs))
+                jobs.append((text, runs, "built from its runs"))
+                if len(runs) == 2 and (len(text) <= 3 or rep.tier == "thorough"):
+                    # the same characters, arrived at through a history: an operand whose views were memoised, then +
+                    jobs.append((text, [runs[0], (runs[1][0], {})], "a looked-at value + a plain str"))
+                    jobs.append((text, [(runs[0][0], {}), runs[1]], "a plain str + a looked-at value"))
+                    jobs.append((text, runs, "a looked-at value + a looked-at value"))
 
     def one(job):
-        text, runs = job
+        text, runs, build = job
         cl = cells(runs)
         pic, W = picture(cl)
-        v = mk(it, *runs)
-        desc = "%r as %d run(s)" % (text, len(runs))
+        if build == "built from its runs":
+            v = mk(it, *runs)
+        else:
+            from .c06 import _look
+            if build == "a looked-at value + a plain str":
+                r0 = it.callm(_look(it, mk(it, runs[0])), "__add__", runs[1][0])
+            elif build == "a plain str + a looked-at value":
+                r0 = it.callm(_look(it, mk(it, runs[1])), "__radd__", runs[0][0])
+            else:
+                r0 = it.callm(_look(it, mk(it, runs[0])), "__add__", _look(it, mk(it, runs[1])))
+            if r0[0] != "ok" or not isinstance(r0[1], Obj):
+                return ("error", "building %r by + is outside the evaluated subset: %s" % (text, r0,), "")
+            v = r0[1]
+            if cells(runs_of(v)) != cl:
+                return None        # concatenation itself is C06's business
+        desc = "%r as %d run(s)%s" % (text, len(runs), "" if build == "built from its runs" else " (%s)" % build)
         try:
             w = ("ok", it.folder.obj_attr(v, "width"))
         except Exception as e:
